@@ -4,13 +4,41 @@ package device
 
 import (
 	"fmt"
+	"os"
+	"os/exec"
+	"strings"
+	"syscall"
 	"testing"
 
 	"github.com/gethiox/HIDI/internal/pkg/logger"
 	"github.com/gethiox/HIDI/internal/verifrt"
 )
 
+// needsSysfs: harnesses that run the real LED loop need /sys/class/hidraw/hidraw0/device/input/input0/event0;
+// the test re-executes itself in a private mount namespace (root required) and mounts a tmpfs there.
+func needsSysfs() bool { return strings.HasPrefix(verifrt.HarnessName(), "HarnessC17Led") }
+
 func TestVerifReplay(t *testing.T) {
+	if needsSysfs() && os.Getenv("VERIF_IN_NS") == "" {
+		cmd := exec.Command("unshare", "-m", os.Args[0], "-test.run", "^TestVerifReplay$", "-test.timeout", "60s", "-test.v")
+		cmd.Env = append(os.Environ(), "VERIF_IN_NS=1")
+		out, err := cmd.CombinedOutput()
+		fmt.Print(string(out))
+		if err != nil {
+			t.Fail()
+		}
+		return
+	}
+	if needsSysfs() {
+		if err := syscall.Mount("tmpfs", "/sys/class", "tmpfs", 0, ""); err != nil {
+			fmt.Println("REPLAY-RESULT kind=error msg=cannot mount tmpfs over /sys/class:", err)
+			return
+		}
+		if err := os.MkdirAll("/sys/class/hidraw/hidraw0/device/input/input0/event0", 0o755); err != nil {
+			fmt.Println("REPLAY-RESULT kind=error msg=cannot create fake sysfs tree:", err)
+			return
+		}
+	}
 	go func() {
 		for range logger.Messages {
 		}
